@@ -26,6 +26,7 @@ LEVEL = "proof"
 REQUIRED_THEOREMS = [
     "basis_orthonormal", "basis_right_handed", "basisOp_handedness", "basis_is_normalised_jacobian",
     "metric_eq_jacobian_gram", "bipolar_basis_orthonormal", "bisph_basis_orthonormal", "order_consistent",
+    "operators_use_component_order_cyl",
     "unit_field_maps_to_basis_vector", "cyl_axial_unit_field_maps_to_azimuthal",
     "order_consistent_cyl_partial", "order_consistent_op", "radial_field_maps_to_position",
     "products_invariant3", "products_invariant_polar", "products_invariant_spherical",
